@@ -19,7 +19,14 @@ def build(ctx, rule):
     # the chromosome loop: a for loop whose body unpacks a tuple from a call to a program function and
     # passes one of the unpack targets (the loop-carried counter) back as an argument
     m.run = None
-    for f in mod.funcs.values():
+    from ..core import tail_inlined
+
+    def is_ordering(callee):
+        return len([r for r in walk_own(callee.node) if isinstance(r, ast.Return) and isinstance(r.value, ast.Tuple)]) >= 2
+
+    from ..core import unroll_const_loops
+
+    for f in [unroll_const_loops(tail_inlined(repo, f0, keep=is_ordering)) for f0 in mod.funcs.values()]:
         for loop in [n for n in walk_own(f.node) if isinstance(n, ast.For)]:
             for st in loop.body:
                 if isinstance(st, ast.Assign) and isinstance(st.value, ast.Call) and isinstance(st.targets[0], (ast.Tuple, ast.Name)):
@@ -28,7 +35,8 @@ def build(ctx, rule):
                         continue
                     rets = [r for r in walk_own(callee.node) if isinstance(r, ast.Return) and isinstance(r.value, ast.Tuple)]
                     if len(rets) >= 2:
-                        m.run, m.loop, m.call_stmt, m.dec = f, loop, st, callee
+                        m.run, m.loop, m.call_stmt, m.dec = f, loop, st, tail_inlined(repo, callee)
+                        m.run0 = mod.funcs[f.qualname]
     if m.run is None:
         raise AnalysisError(rule, mod.relpath, "cannot find the chromosome loop (for-loop unpacking the result of the per-component ordering function)")
     ctx.analysed_func(m.run)
